@@ -85,7 +85,7 @@ var clauseKinds = map[string]bool{
 	"loop": true, "lemma": true, "ghost": true, "panics-when": true, "search-pred": true,
 	"replay": true, "replay-reader": true, "returns": true, "callsite": true, "search": true, "reveal": true, "frame-only": true, "trusted": true, "assume": true, "unroll": true, "inline": true,
 	"reads": true, "pure": true, "let": true, "assert": true, "nosafety": true,
-	"crash-invariant": true, "frame": true, "closure": true, "bound": true, "final": true,
+	"crash-invariant": true, "frame": true, "closure": true, "bound": true, "final": true, "loop-candidates": true,
 }
 
 var tagRe = regexp.MustCompile(`^\[([A-Z0-9, ]+)\]\s*`)
